@@ -143,7 +143,9 @@ func TestDirected(t *testing.T) {
 		t.Fatalf("harness: %v", err)
 	}
 	defer fresh.Close()
-	cold := func() *cstate.BlockExecutor { return cstate.NewBlockExecutor(fresh.Store, log.New(), fresh.EvPool, fresh.BOps) }
+	cold := func() *cstate.BlockExecutor {
+		return cstate.NewBlockExecutor(fresh.Store, log.New(), fresh.EvPool, fresh.BOps)
+	}
 	state := fresh.CS.VerifState()
 	twin := func(g *types.Block, f func(c *types.Commit)) *types.Block {
 		lc := g.LastCommit()
